@@ -278,6 +278,8 @@ class Interp:
             t, k = self.seq_term(v)
             if kind.elem is k:
                 return t
+            if t is None and k is None and kind.elem is not None:
+                return z3.Empty(z3.SeqSort(kind.elem.sort))        # a fresh empty list takes the element type of its slot
             raise Unsupported('sequence kind mismatch: %s vs %s' % (kind, k))
         if hasattr(v, 't') and v.t is not None and v.t.sort() == kind.sort:
             return v.t
